@@ -27,8 +27,8 @@ META = {
             "value fields) are replayed through the real compiler, VM, VmPolicyIO key encoding and linear-storage "
             "perspective with varied index/perspective layering; results, iteration order and the stored fact set "
             "(read back with query_prefix and decoded independently) must equal the spec's after every step.",
-    "note": "Bounds: quick — invariants on all stores <= 4 facts of 9 schema shapes; cover = all stores <= 3 facts x "
-            "all one-step operations of 9 typed schemas (~20k behaviours, all replayed); 300 simulated histories of "
+    "note": "Bounds: quick — invariants on all stores <= 4 facts of the quick schema shapes; cover = all stores <= 3 facts x "
+            "all one-step operations of 11 typed schemas (incl. two key-less ones) (~20k behaviours, all replayed); 300 simulated histories of "
             "8 steps over 345 schemas. Thorough — invariants on 13 shapes, cover of the 9 schemas with <= 4 facts and of 4 more with <= 3 (~70k behaviours), 4000 histories. Key/value "
             "domains are 2-3 ranks per field, concretised per behaviour from ascending tables (i64 extremes, "
             "prefix-related strings, multi-byte UTF-8, ids differing in first/last byte). Trusted: the harness' "
@@ -175,7 +175,7 @@ def run(ctx):
     ctx.cov.update({
         "exhaustive": True,
         "constants": {"ValDom": 2, "Limits": [1, 2, 3],
-                      "invariant_run": "all stores <= 4 facts of %s" % ("the 13 thorough shapes" if thorough else "the 9 quick shapes"),
+                      "invariant_run": "all stores <= 4 facts of %s" % ("the thorough shapes" if thorough else "the quick shapes"),
                       "cover_run": ("SchemasQuick with MaxFacts=4 and SchemasExtra with MaxFacts=3" if thorough
                                     else "SchemasQuick, MaxFacts=3") + ", one step from every store",
                       "simulation": "%d histories x 8 steps, SchemasAll (345 schemas), MaxFacts=4" % nsim},
